@@ -17,6 +17,7 @@ from __future__ import annotations
 
 import ast
 import os
+import re
 import struct
 from typing import Dict, List, Optional, Set, Tuple
 
@@ -731,7 +732,38 @@ def r1(ctx):
                 return ap(e)
             ok_t = isinstance(lp.target, ast.Tuple) and len(lp.target.elts) == 2
             blk, tv = (ap(lp.target.elts[0]), ap(lp.target.elts[1])) if ok_t else (None, None)
-            cs = [c for c in calls(lp) if _res(c.func) == f"LLSDDataPacker.{meth}"]
+            def _converter(fe, host=host, meth=meth):
+                """the callee is LLSDDataPacker.<meth>, or a two-parameter wrapper (method of the serializer class / module
+                function) whose returns are `LLSDDataPacker.<meth>(<value param>, <type param>)` or the value param untouched"""
+                if _res(fe) == f"LLSDDataPacker.{meth}":
+                    return True
+                tgt = env[fe.id] if isinstance(fe, ast.Name) and fe.id in env else fe
+                w = None
+                if isinstance(tgt, ast.Attribute) and host.cls is not None and \
+                        ap(tgt.value) in ("self", "cls", host.cls.name):
+                    w = repo.lookup_method(host.cls, tgt.attr)
+                elif isinstance(tgt, ast.Name):
+                    w = next((g_ for g_ in repo.funcs.get(tgt.id, []) if g_.module is host.module and g_.cls is None
+                              and g_.parent_fn is None), None)
+                if w is None or w is host:
+                    return False
+                wps = [a.arg for a in w.node.args.args if a.arg not in ("self", "cls")]
+                if len(wps) != 2 or any(st_.path in wps for st_ in stores(w.node)):
+                    return False
+                wrets = [n_ for n_ in walk(w.node) if isinstance(n_, ast.Return)]
+                conv = 0
+                for r_ in wrets:
+                    rv = r_.value
+                    if isinstance(rv, ast.Name) and rv.id == wps[0]:
+                        continue
+                    if isinstance(rv, ast.Call) and ap(rv.func) == f"LLSDDataPacker.{meth}" and len(rv.args) == 2 \
+                            and not rv.keywords and [ap(a) for a in rv.args] == wps:
+                        conv += 1
+                        continue
+                    return False
+                from ..core import always_exits
+                return conv >= 1 and always_exits(w.node.body)
+            cs = [c for c in calls(lp) if _converter(c.func)]
             ok = ok_t and len(cs) == 1 and len(cs[0].args) == 2 and ap(cs[0].args[1]) == f"{tv}.type"
             ctx.ob("C12.R1", f"{side} converts with LLSDDataPacker.{meth}(value, tmpl_var.type)", bool(ok), ctx.w(host, lp))
             if not ok:
@@ -770,6 +802,7 @@ def r1(ctx):
             ctx.ob("C12.R1", f"{side} hands on the dict it converted", bool(ok_o), ctx.w(f, lp))
 
     r1_alias(ctx, des)
+    r1_to_dict_fresh(ctx, ser)
 
 
 def _deep_fresh(ctx, f: FuncInfo, value: ast.AST, at: ast.AST, shared: Set[str], depth=0) -> Tuple[bool, str]:
@@ -839,6 +872,64 @@ def _comp_vars(fn_node, sources: Set[str]) -> Set[str]:
             if {x.id for x in ast.walk(n.iter) if isinstance(x, ast.Name)} & sources:
                 out |= {x.id for x in ast.walk(n.target) if isinstance(x, ast.Name)}
     return out
+
+
+def r1_to_dict_fresh(ctx, ser: FuncInfo):
+    """serialize() converts the dict it gets from msg.to_dict() in place: every per-block dict in it has to be built by
+    to_dict (a fresh dict), not an object that belongs to the message (block.vars)."""
+    repo = ctx.repo
+    src_calls = [c for c in calls(ser.node) if call_attr(c) == "to_dict" and isinstance(c.func, ast.Attribute)]
+    ctx.floor("C12.R1", "to_dict() calls feeding LLSDMessageSerializer.serialize", len(src_calls), 1)
+    td0 = repo.fn("Message.to_dict")
+    from ..core import ancestors as _anc
+    all_elems, bad = [], []
+    for td in class_methods_reachable(repo, td0, depth=3):
+        loops = [n for n in walk(td.node) if isinstance(n, (ast.For, ast.comprehension))
+                 and any((ap(x) or "").endswith(".blocks") or (ap(x) or "") == "self.blocks" for x in ast.walk(n.iter))]
+        block_vars: Set[str] = {x.id for lp in loops for x in ast.walk(lp.target) if isinstance(x, ast.Name)}
+        grew = True
+        while grew:
+            grew = False
+            for n in walk(td.node):
+                if isinstance(n, (ast.For, ast.comprehension)) and \
+                        {x.id for x in ast.walk(n.iter) if isinstance(x, ast.Name)} & block_vars:
+                    for x in ast.walk(n.target):
+                        if isinstance(x, ast.Name) and x.id not in block_vars:
+                            block_vars.add(x.id)
+                            grew = True
+        if not block_vars:
+            continue
+
+        def fresh(e, depth=0, td=td) -> bool:
+            if depth > 4:
+                return False
+            if isinstance(e, (ast.Dict, ast.DictComp)):
+                return True
+            if isinstance(e, ast.Call):
+                fn = ap(e.func) or ""
+                return fn in ("dict", "copy.copy", "copy.deepcopy", "OrderedDict") or fn.endswith(".copy") or fn.endswith(".to_dict")
+            if isinstance(e, ast.Name):
+                vals = [st.value for st in stores(td.node, into_defs=False) if st.path == e.id and st.kind == "assign"]
+                return bool(vals) and all(v is not None and fresh(v, depth + 1) for v in vals)
+            return False
+        elems = []
+        for n in walk(td.node):
+            if isinstance(n, ast.Call) and isinstance(n.func, ast.Attribute) and n.func.attr == "append" and n.args and \
+                    any(isinstance(a, ast.For) and ({x.id for x in ast.walk(a.iter) if isinstance(x, ast.Name)} & block_vars or a in loops)
+                        for a in _anc(n)):
+                elems.append(n.args[0])
+            elif isinstance(n, (ast.ListComp, ast.GeneratorExp)) and any(
+                    {x.id for x in ast.walk(g_.iter) if isinstance(x, ast.Name)} & block_vars for g_ in n.generators):
+                elems.append(n.elt)
+        elems = [e for e in elems if {x.id for x in ast.walk(e) if isinstance(x, ast.Name)} & block_vars or isinstance(e, ast.Name)]
+        all_elems.extend(elems)
+        bad.extend(e for e in elems if not fresh(e))
+    td = td0
+    elems = all_elems
+    ctx.floor("C12.R1", "per-block elements Message.to_dict puts into the body", len(elems), 1)
+    ctx.ob("C12.R1", "Message.to_dict builds a private dict per block (serialize converts its values in place)", not bad, td.where,
+           "" if not bad else f"`{norm(bad[0])}` is an object of the message itself: LLSDMessageSerializer.serialize overwrites "
+           f"block[tmpl_var.name] in the dict it got, i.e. in the message - a second serialize() packs already packed values")
 
 
 def _derived_names(fn_node, roots: Set[str]) -> Dict[str, ast.AST]:
@@ -1571,6 +1662,11 @@ def r4(ctx):
                 repl.append(cur)
                 cur = cur.func.value
                 continue
+            wrapped = _wrapper_replaces(repo, sm, cur) if isinstance(cur, ast.Call) and isinstance(cur.func, ast.Name) else None
+            if wrapped is not None:
+                repl.extend(wrapped[1])
+                cur = wrapped[0]
+                continue
             if isinstance(cur, ast.Call) and isinstance(cur.func, ast.Attribute) and len(cur.args) == 1 and not cur.keywords \
                     and ap(cur.func.value) in ("self", "cls", owner.name):
                 hm = repo.lookup_method(owner, cur.func.attr)
@@ -1852,10 +1948,19 @@ def r7(ctx):
         for c in calls(mod.tree, into_defs=True):
             if not isinstance(c.func, (ast.Name, ast.Attribute)):
                 continue
-            tpn = tp_stateful(mod, c.func)
-            if tpn is None and (ap(c.func) or "").split(".")[-1] not in names:
+            fexpr = c.func
+            if isinstance(fexpr, ast.Attribute) and ap(fexpr.value) in ("self", "cls"):
+                # `cls.PARSER_CLS()`: a class attribute naming the class to build
+                from ..core import ancestors as _anc
+                kdef = next((a for a in _anc(c) if isinstance(a, ast.ClassDef)), None)
+                kci = repo.resolve_class(kdef.name, mod) if kdef is not None else None
+                cav = repo.class_attr(kci, fexpr.attr) if kci is not None else None
+                if isinstance(cav, (ast.Name, ast.Attribute)):
+                    fexpr = cav
+            tpn = tp_stateful(mod, fexpr)
+            if tpn is None and (ap(fexpr) or "").split(".")[-1] not in names:
                 continue
-            ci = repo.resolve_class((ap(c.func) or "").split(".")[-1], mod) if tpn is None else _TP(tpn)
+            ci = repo.resolve_class((ap(fexpr) or "").split(".")[-1], mod) if tpn is None else _TP(tpn)
             if tpn is None and ci not in classes:
                 continue
             n += 1
@@ -2004,6 +2109,30 @@ def r9_formatters(ctx):
            "format_notation(datetime.now(timezone.utc)) writes '...+00:00Z', which every LLSD parser rejects")
 
 
+def _wrapper_replaces(repo, m: FuncInfo, e):
+    """`helper(x)` / `self.helper(x)` where the helper's single return is `<param>.replace(..)...`: (x, [replace calls])"""
+    if not (isinstance(e, ast.Call) and len(e.args) == 1 and not e.keywords):
+        return None
+    h = None
+    if isinstance(e.func, ast.Name):
+        h = next((g for g in repo.funcs.get(e.func.id, []) if g.module is m.module and g.cls is None and g.parent_fn is None), None)
+    elif isinstance(e.func, ast.Attribute) and ap(e.func.value) in ("self", "cls") and m.cls is not None:
+        h = repo.lookup_method(m.cls, e.func.attr)
+    if h is None or h is m:
+        return None
+    hps = [a.arg for a in h.node.args.args if a.arg not in ("self", "cls")]
+    hrets = [n for n in walk(h.node) if isinstance(n, ast.Return) and n.value is not None]
+    if len(hps) != 1 or len(hrets) != 1 or any(st.path == hps[0] for st in stores(h.node)):
+        return None
+    inner, chain = hrets[0].value, []
+    while isinstance(inner, ast.Call) and isinstance(inner.func, ast.Attribute) and inner.func.attr == "replace":
+        chain.append(inner)
+        inner = inner.func.value
+    if ap(inner) != hps[0] or not chain:
+        return None
+    return e.args[0], chain
+
+
 def r10(ctx):
     """XML end-of-line handling: a parser turns a literal CR / CRLF into LF, only a character reference survives."""
     repo = ctx.repo
@@ -2034,9 +2163,18 @@ def r10(ctx):
                 return e
             for rt in [x.value for x in walk(m.node) if isinstance(x, ast.Return) and x.value is not None]:
                 cur, repl = _local(rt), []
-                while isinstance(cur, ast.Call) and isinstance(cur.func, ast.Attribute) and cur.func.attr == "replace":
-                    repl.append(cur)
-                    cur = _local(cur.func.value)
+                for _ in range(12):
+                    if isinstance(cur, ast.Call) and isinstance(cur.func, ast.Attribute) and cur.func.attr == "replace":
+                        repl.append(cur)
+                        cur = _local(cur.func.value)
+                        continue
+                    # a one-argument helper (module function or method of the class) that returns a replace chain on its parameter
+                    wrapped = _wrapper_replaces(repo, m, cur)
+                    if wrapped is not None:
+                        repl.extend(wrapped[1])
+                        cur = _local(wrapped[0])
+                        continue
+                    break
                 base_ok = isinstance(cur, ast.Call) and isinstance(cur.func, ast.Attribute) and cur.func.attr == "xml_esc" and \
                     isinstance(cur.func.value, ast.Call) and ap(cur.func.value.func) == "super"
                 cr = []
@@ -2044,8 +2182,11 @@ def r10(ctx):
                     if len(r_.args) != 2:
                         continue
                     a0, a1 = mev.ev(r_.args[0]), mev.ev(r_.args[1])
-                    if a0 in (b"\r", "\r") and isinstance(a1, type(a0)) and a0 not in a1:
-                        cr.append(r_)
+                    if a0 in (b"\r", "\r") and isinstance(a1, type(a0)):
+                        # what takes its place must be a character reference to U+000D (anything else reads back as other text)
+                        t1 = a1.decode("latin-1") if isinstance(a1, bytes) else a1
+                        if re.fullmatch(r"&#(0*13|[xX]0*[dD]);", t1):
+                            cr.append(r_)
                 ok = base_ok and bool(cr)
         ctx.ob("C12.R10", f"{c.name}: carriage returns are written as a character reference", ok, ctx.w(lmod, c.node),
                "the inherited xml_esc writes U+000D raw: 'a\\r\\nb' in a message string comes back as 'a\\nb' through the XML form "
